@@ -17,25 +17,54 @@ import (
 	"verifharness/hx"
 )
 
-// scriptBytes renders the script tokens (s1.1006 r1000 pam pnm ris) as the bytes a child writes.
-func scriptBytes(script string) (string, bool) {
-	if script == "-" || script == "" {
-		return "", true
+// A script is a list of tokens, one per sequence the child writes (see Driver/C13.lean parseScript?):
+//   s1.1006  CSI ? 1 ; 1006 h      r1000  CSI ? 1000 l      pam  ESC =      pnm  ESC >      ris  ESC c
+//   c<label hex>:<params>   any other CSI; label = private marker / intermediates + final as the parser reports
+//                           them (c68:1000 = CSI 1000 h, ANSI SM; c2170: = CSI ! p, DECSTR)
+//   e<label hex>            any other ESC (e37 = DECSC, e38 = DECRC, e2842 = ESC ( B)
+//   t<hex>                  text / C0 bytes (no ESC)
+//   o<hex>                  an OSC string with that payload
+//   z<w>x<h>                the widget is resized
+type scriptStep struct {
+	bytes  string
+	resize bool
+	w, h   int
+}
+
+func unhex(h string) (string, bool) {
+	if len(h)%2 != 0 {
+		return "", false
 	}
 	var sb strings.Builder
+	for i := 0; i < len(h); i += 2 {
+		v, err := strconv.ParseUint(h[i:i+2], 16, 8)
+		if err != nil {
+			return "", false
+		}
+		sb.WriteByte(byte(v))
+	}
+	return sb.String(), true
+}
+
+func scriptSteps(script string) ([]scriptStep, bool) {
+	if script == "-" || script == "" {
+		return nil, true
+	}
+	var steps []scriptStep
+	add := func(b string) { steps = append(steps, scriptStep{bytes: b}) }
 	for _, t := range strings.Split(script, ",") {
 		switch {
 		case t == "pam":
-			sb.WriteString("\x1b=")
+			add("\x1b=")
 		case t == "pnm":
-			sb.WriteString("\x1b>")
+			add("\x1b>")
 		case t == "ris":
-			sb.WriteString("\x1bc")
+			add("\x1bc")
 		case len(t) > 1 && (t[0] == 's' || t[0] == 'r'):
 			var ns []string
 			for _, n := range strings.Split(t[1:], ".") {
 				if _, err := strconv.Atoi(n); err != nil {
-					return "", false
+					return nil, false
 				}
 				ns = append(ns, n)
 			}
@@ -43,29 +72,147 @@ func scriptBytes(script string) (string, bool) {
 			if t[0] == 'r' {
 				fin = "l"
 			}
-			sb.WriteString("\x1b[?" + strings.Join(ns, ";") + fin)
+			add("\x1b[?" + strings.Join(ns, ";") + fin)
+		case len(t) > 1 && t[0] == 'c':
+			p := strings.SplitN(t[1:], ":", 2)
+			if len(p) != 2 {
+				return nil, false
+			}
+			lab, ok := unhex(p[0])
+			if !ok || lab == "" {
+				return nil, false
+			}
+			var ns []string
+			if p[1] != "" && p[1] != "-" {
+				for _, n := range strings.Split(p[1], ".") {
+					if _, err := strconv.ParseUint(n, 10, 64); err != nil {
+						return nil, false
+					}
+					ns = append(ns, n)
+				}
+			}
+			// private markers (< = > ?) precede the parameters, intermediates (0x20-0x2F) follow them
+			pre, post := "", ""
+			for i := 0; i < len(lab)-1; i++ {
+				if lab[i] >= 0x3C && lab[i] <= 0x3F {
+					pre += string(lab[i])
+				} else if lab[i] >= 0x20 && lab[i] <= 0x2F {
+					post += string(lab[i])
+				} else {
+					return nil, false
+				}
+			}
+			fin := lab[len(lab)-1]
+			if fin < 0x40 || fin > 0x7E {
+				return nil, false
+			}
+			add("\x1b[" + pre + strings.Join(ns, ";") + post + string(fin))
+		case len(t) > 1 && t[0] == 'e':
+			lab, ok := unhex(t[1:])
+			if !ok || lab == "" {
+				return nil, false
+			}
+			add("\x1b" + lab)
+		case len(t) > 1 && t[0] == 't':
+			b, ok := unhex(t[1:])
+			if !ok || strings.ContainsAny(b, "\x1b\x9b\x90\x9d\x9e\x9f\x98") {
+				return nil, false
+			}
+			add(b)
+		case len(t) > 1 && t[0] == 'o':
+			b, ok := unhex(t[1:])
+			if !ok {
+				return nil, false
+			}
+			add("\x1b]" + b + "\x1b\\")
+		case len(t) > 1 && t[0] == 'z':
+			p := strings.Split(t[1:], "x")
+			if len(p) != 2 {
+				return nil, false
+			}
+			w, e1 := strconv.Atoi(p[0])
+			hh, e2 := strconv.Atoi(p[1])
+			if e1 != nil || e2 != nil || w < 1 || hh < 1 || w > 300 || hh > 300 {
+				return nil, false
+			}
+			steps = append(steps, scriptStep{resize: true, w: w, h: hh})
 		default:
-			return "", false
+			return nil, false
 		}
 	}
-	return sb.String(), true
+	return steps, true
 }
 
-// childTerm makes a terminal and lets the "child" write the script to it.
+// childTerm makes a terminal and lets the "child" write the script to it. Every token must reach the
+// emulator as exactly the sequence it names (checked: one CSI / ESC with that label per c/e/s/r token).
 func childTerm(script string) (*term.Model, bool) {
-	b, ok := scriptBytes(script)
+	steps, ok := scriptSteps(script)
 	if !ok {
 		return nil, false
 	}
 	vt := term.VerifNew(80, 24)
-	for _, seq := range parse(b) {
-		if _, isEOF := seq.(ansi.EOF); isEOF {
+	for _, st := range steps {
+		if st.resize {
+			vt.VerifResize(st.w, st.h)
 			continue
 		}
-		vt.VerifFeed(seq)
+		for _, seq := range parse(st.bytes) {
+			if _, isEOF := seq.(ansi.EOF); isEOF {
+				continue
+			}
+			vt.VerifFeed(seq)
+		}
 	}
 	vt.VerifTakeReplies()
 	return vt, true
+}
+
+// tokenFaithful reports whether the real parser turns the bytes of a c/e token into exactly one CSI / ESC
+// with the token's label and parameters (so that the driver's reading of the token is what the emulator saw).
+func tokenFaithful(t string) bool {
+	steps, ok := scriptSteps(t)
+	if !ok || len(steps) != 1 || steps[0].resize {
+		return false
+	}
+	var seqs []ansi.Sequence
+	for _, seq := range parse(steps[0].bytes) {
+		if _, isEOF := seq.(ansi.EOF); !isEOF {
+			seqs = append(seqs, seq)
+		}
+	}
+	if len(seqs) != 1 {
+		return false
+	}
+	switch t[0] {
+	case 'c':
+		c, ok := seqs[0].(ansi.CSI)
+		if !ok {
+			return false
+		}
+		p := strings.SplitN(t[1:], ":", 2)
+		lab, _ := unhex(p[0])
+		if string(c.Intermediate)+string(c.Final) != lab {
+			return false
+		}
+		var want []string
+		if p[1] != "" && p[1] != "-" {
+			want = strings.Split(p[1], ".")
+		}
+		if len(c.Parameters) != len(want) {
+			return false
+		}
+		for i, pm := range c.Parameters {
+			if len(pm) == 0 || strconv.Itoa(pm[0]) != want[i] {
+				return false
+			}
+		}
+		return true
+	case 'e':
+		e, ok := seqs[0].(ansi.ESC)
+		lab, _ := unhex(t[1:])
+		return ok && string(e.Intermediate)+string(e.Final) == lab
+	}
+	return true
 }
 
 func forward(vt *term.Model, ev vaxis.Event) (out string, panicked bool) {
@@ -203,6 +350,7 @@ func (h *H) childStreams() {
 	}
 	h.childCase("s1,s1002.1006,s2004,ris", "systematic")
 	h.childCase("s1.1000.1002.1003.1006.1007.1049.2004,pam,ris", "systematic")
+	h.childNoise(nums)
 	// random scripts
 	n := 1200
 	if h.r.Thorough {
@@ -212,7 +360,9 @@ func (h *H) childStreams() {
 	for i := 0; i < n; i++ {
 		var toks []string
 		for j := rng.Range(1, 8); j > 0; j-- {
-			switch rng.Intn(12) {
+			switch rng.Intn(14) {
+			case 12, 13:
+				toks = append(toks, gen.Pick(rng, noisePool))
 			case 0:
 				toks = append(toks, "pam")
 			case 1:
@@ -238,6 +388,71 @@ func (h *H) childStreams() {
 		h.childCase(strings.Join(toks, ","), "random")
 	}
 	h.r.Note("child-selected modes: every mode number alone, in pairs, after RIS and across 1049", true)
+}
+
+func hexOf(b string) string {
+	var sb strings.Builder
+	for i := 0; i < len(b); i++ {
+		fmt.Fprintf(&sb, "%02x", b[i])
+	}
+	return sb.String()
+}
+
+// Output of the child that selects NO input mode (Spec.childOpOf = none): ANSI SM / RM with the numbers of
+// the private modes, DECSTR, XTSAVE / XTRESTORE, DECSC / DECRC (both forms), charsets, cursor movement,
+// erasing, scrolling, SGR, DA / DSR / DECRQM requests, text with line feeds and wide / combining
+// characters, OSC title / hyperlink, window resizes, mode numbers beyond the clamp (2^32 + n).
+var noisePool = []string{
+	"c68:1000", "c68:1002.1006", "c68:1", "c68:2004", "c68:1049", "c68:4", "c68:20", "c6c:1000", "c6c:1", "c6c:2004", "c6c:1049", "c6c:4",
+	"c2170:", "c3f73:1", "c3f72:1", "c3f73:1000.2004", "c3f72:1000.2004", "c73:", "c75:", "e37", "e38",
+	"e2830", "e2842", "e2930", "e4e", "e44", "e45", "e4d", "e48", "e2338", "e5c",
+	"c48:5.10", "c48:", "c41:3", "c42:200", "c43:7", "c44:1", "c4a:2", "c4a:", "c4b:1", "c4c:2", "c4d:1", "c50:3", "c40:2", "c58:4",
+	"c53:2", "c54:1", "c72:2.10", "c72:", "c67:3", "c49:2", "c5a:1", "c62:3", "c64:4", "c47:9", "c60:2", "c61:1", "c65:1", "c45:1", "c46:1",
+	"c6d:1.31", "c6d:38.5.200", "c6d:0", "c6d:", "c63:", "c3e63:", "c6e:6", "c6e:5", "c3f2470:1", "c3f2470:2004", "c2071:4", "c2470:4",
+	"c3f68:4294968296", "c3f6c:4294968296", "c3f68:4294967297", "c3f68:65535", "c3f6c:66536", "c3f68:47", "c3f68:1047", "c3f68:1048", "c3f6c:1047",
+	"c3f68:9", "c3f68:1001", "c3f68:1004", "c3f68:1005", "c3f68:1015", "c3f68:2026", "c3f6c:1005", "c3e68:1", "c3c68:1000", "c3d68:2004",
+	"t" + hexOf("hello"), "t" + hexOf("a\r\nb\r\nc"), "t" + hexOf("\n\n\n\n\n\n\n\n\n\n\n\n\n\n\n\n\n\n\n\n\n\n\n\n\n\n"),
+	"t" + hexOf("\t\b\a\x0e\x0f\x0b\x0c"), "t" + hexOf("世界e\u0301👨\u200d👩"), "t" + hexOf(strings.Repeat("x", 200)),
+	"o" + hexOf("0;title"), "o" + hexOf("8;;http://example.com"), "o" + hexOf("8;;"), "o" + hexOf("777;notify;a;b"), "o" + hexOf("9;hi"),
+	"z40x10", "z80x24", "z1x1", "z132x50", "z3x2",
+}
+
+// childNoise: the modes must be selected by the mode sequences only, whatever else the child writes.
+func (h *H) childNoise(nums []int) {
+	for _, t := range noisePool {
+		if (t[0] == 'c' || t[0] == 'e') && !tokenFaithful(t) {
+			h.r.Count("child-noise-token-not-faithful:" + t)
+			continue
+		}
+		// alone; after everything was enabled; between enabling and RIS; after RIS
+		all := "s1.1000.1002.1003.1006.1007.1049.2004,pam"
+		h.childCase(t, "noise")
+		h.childCase(all+","+t, "noise")
+		h.childCase(all+","+t+",ris", "noise")
+		h.childCase(all+",ris,"+t, "noise")
+	}
+	// ANSI SM / RM of every private number: selects nothing, clears nothing
+	for _, n := range nums {
+		h.childCase(fmt.Sprintf("c68:%d", n), "noise-ansi-sm-rm")
+		h.childCase(fmt.Sprintf("s%d,c6c:%d", n, n), "noise-ansi-sm-rm")
+		h.childCase(fmt.Sprintf("s%d,c2170:", n), "noise-decstr")
+		h.childCase(fmt.Sprintf("s%d,e37,r%d,e38", n, n), "noise-decsc-decrc")
+		h.childCase(fmt.Sprintf("e37,s%d,e38", n), "noise-decsc-decrc")
+		h.childCase(fmt.Sprintf("s%d,z40x10", n), "noise-resize")
+		h.childCase(fmt.Sprintf("s%d,s1049,z40x10,r1049", n), "noise-resize")
+	}
+	// sessions of a full-screen program: start, work, then a clean exit / a crash followed by `reset`
+	start := "s1049,s1,pam,s2004,s1002.1006,c4a:2,c48:,t" + hexOf("~\r\n~\r\n~") + ",c48:24.1,c6d:7,t" + hexOf("-- INSERT --") + ",c6d:0"
+	work := "c48:3.5,t" + hexOf("typing") + ",c4b:,c4c:1,c53:1,e37,c48:1.1,e38,o" + hexOf("0;vim") + ",z100x30,c72:1.29"
+	h.childCase(start, "session")
+	h.childCase(start+","+work, "session")
+	h.childCase(start+","+work+",r1002.1006,r2004,pnm,r1,r1049", "session-clean-exit")
+	h.childCase(start+","+work+",ris", "session-crash-reset")
+	h.childCase(start+","+work+",ris,t"+hexOf("$ ")+",c6d:0", "session-crash-reset")
+	h.childCase(start+","+work+",r1049", "session-left-alt-screen-only")
+	h.childCase(start+","+work+",c2170:", "session-decstr-only")
+	h.childCase(start+","+work+",ris,"+start, "session-restart")
+	h.r.Note("child streams with other output between the mode sequences (SM/RM, DECSTR, DECSC/DECRC, text, movement, OSC, resizes, sessions)", true)
 }
 
 func (h *H) childReplay(op []string) (string, bool) {
